@@ -272,6 +272,7 @@ def corr_and_pt(ctx, ncases):
         for feat in ('COMPONENTS OF', 'IMPORTS', 'EXTENSIBILITY IMPLIED', 'DEFAULT', "'B", "'H", '[[', 'AUTOMATIC'):
             if feat in text:
                 ctx.count('feature:' + feat)
+    ctx.log('%d histories run on /repo' % len(cases))
     if not cases:
         return
     # the model on the same inputs, one coqc run
@@ -424,6 +425,7 @@ def run(ctx):
         'parameterised types, object classes and ANY DEFINED BY choices are outside the model (the exporter rejects them)',
     ]
     ok = ctx.coq_props()
+    ctx.log('proofs checked: %s' % ok)
     w = run_witness(ctx, WITNESS)
     ctx.case(('witness',), dict(kind='witness', **WITNESS))
     if w is not None:
